@@ -374,8 +374,10 @@ def write_replay(prop, viol):
         _CLEARED.add(prop)
         for fn in glob.glob(os.path.join(d, '*.json')):
             os.remove(fn)
-    safe = ''.join(ch if ch.isalnum() or ch in '._-' else '_' for ch in viol['obligation'])[:120]
-    p = os.path.join(d, safe + '.json')
+    import hashlib
+    safe = ''.join(ch if ch.isalnum() or ch in '._-' else '_' for ch in viol['obligation'])[:110]
+    # names that differ only in punctuation (operator[+] / operator[-]) must not share a file
+    p = os.path.join(d, '%s_%s.json' % (safe, hashlib.sha1(viol['obligation'].encode()).hexdigest()[:8]))
     with open(p, 'w') as f:
         json.dump(dict(property=prop, **viol), f, indent=1, default=str)
     return os.path.relpath(p, ROOT)
